@@ -2,3 +2,6 @@ import Properties.C19
 import Properties.C13
 import Properties.C20
 import Properties.C12
+import Properties.C14
+import Properties.C16
+import Properties.C10
